@@ -16,6 +16,7 @@ import (
 	_ "verifharness/fam/indent"
 	_ "verifharness/fam/numbers"
 	_ "verifharness/fam/ranges"
+	_ "verifharness/fam/registry"
 	_ "verifharness/fam/schema"
 	_ "verifharness/fam/text"
 	_ "verifharness/fam/types"
